@@ -108,6 +108,22 @@ def build_arg(cls, shape, pairs, as_model=False):
     raise ValueError(shape)
 
 
+def scribble(arg):
+    """The caller goes on using (and changing) the object it passed in: the OMD must not be affected."""
+    try:
+        if isinstance(arg, list):
+            arg.append(('zz-caller', 'scribble'))
+            arg.reverse()
+        elif isinstance(arg, dict) and type(arg) is dict:
+            arg['zz-caller'] = 'scribble'
+            for k in list(arg)[:1]:
+                arg[k] = 'scribbled'
+        elif hasattr(arg, 'add') and hasattr(arg, 'poplast'):
+            arg.add('zz-caller', 'scribble')
+    except Exception:
+        pass
+
+
 def arg_pairs_effective(shape, pairs):
     """What pairs the argument denotes (a dict collapses repeated keys)."""
     if shape == 'dict':
@@ -150,6 +166,7 @@ class Run(object):
         self.d = None
         self.L = []
         self.twin = None
+        self.shared_list = []
 
     def fail(self, read, detail):
         raise common.Violation(read, detail)
@@ -293,8 +310,10 @@ class Run(object):
                 self.d = cls.fromkeys(iter(keys), v) if a.get('iter') else cls.fromkeys(keys, v)
                 self.L = [(k, v) for k in keys]
             else:
-                self.d = cls(build_arg(cls, shape, pairs), **dict(kw))
+                arg = build_arg(cls, shape, pairs)
+                self.d = cls(arg, **dict(kw))
                 self.L = m_update(m_update_extend([], shape, pairs, []), 'list', [], kw)
+                scribble(arg)
             return
         if name == 'add':
             k, v = KEYS[a['k']], VALS[a['v']]
@@ -304,9 +323,15 @@ class Run(object):
             k = KEYS[a['k']]
             vs = [VALS[v] for v in a['vs']]
             shape = a['shape']
-            arg = {'list': list, 'tuple': tuple, 'iter': iter, 'gen': lambda x: (i for i in x)}[shape](vs)
+            if shape == 'shared-list':
+                # one list object owned by the caller and reused for several calls
+                arg = self.shared_list
+                arg[:] = vs
+            else:
+                arg = {'list': list, 'tuple': tuple, 'iter': iter, 'gen': lambda x: (i for i in x)}[shape](vs)
             expect(outcome(d.addlist, k, arg), ('ok', None), 'result[addlist]')
             self.L = L + [(k, v) for v in vs]
+            scribble(arg)
         elif name == 'setitem':
             k, v = KEYS[a['k']], VALS[a['v']]
             d[k] = v
@@ -339,6 +364,8 @@ class Run(object):
                     self.fail('result[ior]', '|= rebound the name to a different object')
                 self.d = d
                 self.L = m_update(L, shape, pairs, [])
+            if shape != 'self':
+                scribble(arg)
         elif name == 'setdefault':
             k = KEYS[a['k']]
             if a.get('v', _NO) == _NO:
@@ -493,7 +520,7 @@ class Check(object):
             return [kind, {'k': k, 'v': v}]
         if kind == 'addlist':
             return [kind, {'k': k, 'vs': [r.choice(list(VALS)) for _ in range(r.choice([0, 1, 2, 3]))],
-                           'shape': r.choice(['list', 'tuple', 'iter', 'gen'])}]
+                           'shape': r.choice(['list', 'list', 'tuple', 'iter', 'gen', 'shared-list', 'shared-list'])}]
         if kind == 'delitem':
             return [kind, {'k': k}]
         if kind in ('update', 'update_extend', 'ior'):
